@@ -260,7 +260,10 @@ def check_guard_helpers(ctx, model):
         return
     spec = EqGuard("sender==wasm admin",
                    lambda os_: bool(os_) and all(o.kind == "param" and o.a == 3 for o in os_),
-                   is_query_field(r"QuerierWrapper::query_wasm_contract_info$", ("admin",)))
+                   # the wasm admin, or the contract creator as the fallback authority when no admin is set
+                   lambda os_: bool(os_) and all(o.kind == "call" and o.a.endswith("QuerierWrapper::query_wasm_contract_info")
+                                                 and tuple(o.proj) in (("admin",), ("creator",)) for o in os_)
+                   and any(tuple(o.proj) == ("admin",) for o in os_))
     for ob in ok_return_blocks(v):
         ok, why = site_guarded(model, (), path, ob, spec)
         ctx.ob("C16-helper", "%s|ok-return" % path, ok,
